@@ -33,7 +33,7 @@ RULE = (
     "round trip through a file after a restart or one minimal-format round trip"
 )
 LEVEL_TEXT = (
-    "Seeded stateful histories through the storage seam with process restarts (only files survive), randomised format threshold, ZANJ layout knobs and clock; every loaded dataset is compared value by value (canonicalised arrays, config fields, collected-metadata counts) with a plain-data model recorded before the operation. Inputs include hand-assembled datasets (stale counts, stripped or collected metadata, shared and re-ordered maze objects of reloaded datasets), grids wider than 128 cells kept cheap, endpoint lists long enough to be stored as external archive members, collections built with shared and with copied member configurations, collections with an empty member under thresholds on either side of the member and collection sizes (dealt, one history in fifteen), every format written through the disk seam, save targets spelled without the extension / with dots in the bare name / as pathlib.Path, saved forms loaded twice, the saved form of an equal donor dataset edited everywhere (entries, items, array contents) before the round trip; one interpreter slot in three runs under python -O. Sampling, not proof.",
+    "Seeded stateful histories through the storage seam with process restarts (only files survive), randomised format threshold, ZANJ layout knobs and clock; every loaded dataset is compared value by value (canonicalised arrays, config fields, collected-metadata counts) with a plain-data model recorded before the operation. Inputs include hand-assembled datasets (stale counts, stripped or collected metadata, shared and re-ordered maze objects of reloaded datasets), grids wider than 128 cells kept cheap (boundary widths 127-130, 200, 256, 257 dealt in turn), endpoint lists long enough to be stored as external archive members, collections built with shared and with copied member configurations, collections with an empty member under thresholds on either side of the member and collection sizes (dealt, one history in fifteen), every format written through the disk seam, save targets spelled without the extension / with dots in the bare name / as pathlib.Path, saved forms loaded twice, the saved form of an equal donor dataset edited everywhere (entries, items, array contents) before the round trip; one interpreter slot in three runs under python -O. Sampling, not proof.",
     "Trusted: stdlib zipfile/NumPy; the storage seam is fault-free here (faults are C11's business).",
 )
 
@@ -382,6 +382,10 @@ def _finding_key(ds, e):
 # ------------------------------------------------------------------------------------------------
 # history generation (main process) and driver
 # ------------------------------------------------------------------------------------------------
+FAR_SIDES = [129, 128, 257, 127, 130, 256, 200]
+FAR_COUNTER = [0]
+
+
 def gen_history(rng: random.Random, tier: str) -> dict:
     ops: list = []
     paths = ["a.zanj", "b.zanj", "c.zanj"]
@@ -423,7 +427,8 @@ def gen_history(rng: random.Random, tier: str) -> dict:
             elif far_corner:
                 # large grids, kept cheap: a small constrained depth-first tree grown from the far corner, so that the
                 # solutions live at coordinates >= 127 (the minimal formats store coordinates in a narrow integer type)
-                g = rng.choice([127, 128, 129, 130, 200, 256, 257])
+                g = FAR_SIDES[(FAR_COUNTER[0]) % len(FAR_SIDES)]  # dealt, not drawn: a fault may live at exactly one of these sizes
+                FAR_COUNTER[0] += 1
                 cfg = {"name": "far", "grid_n": g, "n_mazes": rng.randint(1, 3), "maze_ctor": "gen_dfs", "maze_ctor_kwargs": {"accessible_cells": rng.randint(6, 30), "start_coord": [g - 1, g - 1 - rng.randrange(3)]}, "endpoint_kwargs": {}, "seed": rng.randrange(1000), "applied_filters": []}
             else:
                 cfg = _ds.rand_cfgspec(rng, max_n=6, max_mazes=12, filters=False, rich_endpoints=False)
@@ -471,7 +476,15 @@ def gen_history(rng: random.Random, tier: str) -> dict:
         elif r < 0.58:
             ops.append(["mem", rng.choice(slots), rng.choice(["serialize", "serialize", "full", "minimal", "soln_cat"])])
         elif r < 0.74:
-            ops.append(["save", rng.choice(slots), rng.choice(paths), {"compress": rng.random() < 0.6, "external_array_threshold": rng.choice([256, 16, 0]), "how": rng.choice(["serialize", "serialize", "serialize", "full", "minimal", "soln_cat"])}])
+            tgt = rng.choice(paths)
+            rewrite = rng.random() < 0.3
+            if rewrite:
+                # read - rewrite - read again, in ONE process lifetime: the second read must see the rewritten file, whichever
+                # way it was rewritten (the dataset's own save, or the archive writer given one of the explicit formats)
+                ops.append(["read", tgt, "MazeDataset.read", False])
+            ops.append(["save", rng.choice(slots), tgt, {"compress": rng.random() < 0.6, "external_array_threshold": rng.choice([256, 16, 0]), "how": rng.choice(["serialize", "serialize", "serialize", "full", "minimal", "soln_cat"])}])
+            if rewrite:
+                ops.append(["read", tgt, "MazeDataset.read", False])
         elif r < 0.88:
             ops.append(["read", rng.choice(paths), rng.choice(["MazeDataset.read", "MazeDataset.read", "ZANJ.read"]), False])
         elif r < 0.94:
@@ -530,8 +543,32 @@ def gen_collection_history(rng: random.Random) -> dict:
     return {"ops": ops, "clock": {"t0": float(rng.randrange(400_000_000, 4_000_000_000)), "steps": [0.0, 1.0, 0.5], "mem": rng.choice([0, 255])}}
 
 
+def gen_far_history(rng: random.Random, g: int) -> dict:
+    """boundary grid widths are dealt too (a narrow integer type may fail at exactly one of them): a small tree in the far corner
+    of a g-wide grid, through every format in memory and through a file, before and after a restart"""
+    cfg = {"name": "far", "grid_n": g, "n_mazes": rng.randint(1, 3), "maze_ctor": "gen_dfs", "maze_ctor_kwargs": {"accessible_cells": rng.randint(8, 30), "start_coord": [g - 1, g - 1 - rng.randrange(3)]}, "endpoint_kwargs": {}, "seed": rng.randrange(1000), "applied_filters": []}
+    ops: list = [["threshold", rng.choice([None, 1, 100])], ["make", "s0", cfg]]
+    for how in ("minimal", "soln_cat", "serialize", "full"):
+        ops.append(["mem", "s0", how])
+    ops.append(["save", "s0", "a.zanj", {"compress": rng.random() < 0.6, "external_array_threshold": rng.choice([256, 16, 0]), "how": rng.choice(["minimal", "soln_cat", "serialize"])}])
+    ops.append(["read", "a.zanj", "MazeDataset.read", False])
+    ops.append(["restart"])
+    ops.append(["read", "a.zanj", "MazeDataset.read", True])
+    return {"ops": ops, "clock": {"t0": float(rng.randrange(400_000_000, 4_000_000_000)), "steps": [0.0, 1.0, 0.5], "mem": rng.choice([0, 255])}}
+
+
 def gen_specs(rng: random.Random, tier: str, n: int) -> list[dict]:
-    return [dict(gen_collection_history(rng) if i % 15 == 4 else gen_history(rng, tier), seed=rng.getrandbits(48), slot=i % 3) for i in range(n)]
+    FAR_COUNTER[0] = 0
+    out = []
+    for i in range(n):
+        if i % 15 == 4:
+            h = gen_collection_history(rng)
+        elif i % 12 == 7:
+            h = gen_far_history(rng, FAR_SIDES[(i // 12) % len(FAR_SIDES)])
+        else:
+            h = gen_history(rng, tier)
+        out.append(dict(h, seed=rng.getrandbits(48), slot=i % 3))
+    return out
 
 
 def run(spec: dict, ctx) -> dict:
